@@ -86,6 +86,23 @@ type parser struct {
 	// tokLine and tokCol are the position of the start of the last token read.
 	tokLine int
 	tokCol  int
+
+	// depth is the number of lists, objects and selection sets open at the
+	// current position, it is kept below maxNesting.
+	depth int
+}
+
+// maxNesting is the deepest nesting of lists, objects, list types and
+// selection sets that is read. The readers and everything that later walks
+// what they built are recursive, without a bound a long run of opening
+// brackets exhausts the stack.
+const maxNesting = 10000
+
+func (p *parser) nest() (err error) {
+	if p.depth++; maxNesting < p.depth {
+		err = parseError(p.line, p.col, "nested deeper than %d", maxNesting)
+	}
+	return
 }
 
 // ParseValue parses a reader into a value where the input follows the SDL
@@ -245,7 +262,12 @@ func (p *parser) readType() (t Type, err error) {
 			return
 		case '[':
 			_, _ = p.readByte() // re-read [
-			if t, err = p.readType(); err != nil {
+			if err = p.nest(); err != nil {
+				return
+			}
+			t, err = p.readType()
+			p.depth--
+			if err != nil {
 				return
 			}
 			b, err = p.skipSpace()
@@ -475,6 +497,10 @@ func (p *parser) readValue() (v interface{}, err error) {
 		}
 	case '[':
 		_, _ = p.readByte() // re-read [
+		if err = p.nest(); err != nil {
+			return
+		}
+		defer func() { p.depth-- }()
 		list := []interface{}{}
 		for {
 			if b, err = p.skipSpace(); err != nil {
@@ -495,6 +521,10 @@ func (p *parser) readValue() (v interface{}, err error) {
 		}
 	case '{':
 		_, _ = p.readByte() // re-read {
+		if err = p.nest(); err != nil {
+			return
+		}
+		defer func() { p.depth-- }()
 		obj := map[string]interface{}{}
 		for {
 			if b, err = p.skipSpace(); err != nil {
